@@ -306,3 +306,65 @@ theorem de_serV (env : FEnv) : ∀ (vs : List (List Char × DTy)) (d : SData), H
 end
 
 end JsonVerif
+
+namespace JsonVerif
+
+/-- the key serializer is injective on the data of a key type: distinct keys are spelled differently -/
+theorem serKey_inj : ∀ (k : KTy) (a b : SData) (n : List Char), HasKey k a → HasKey k b →
+    serKey a = .ok n → serKey b = .ok n → a = b
+  | .str, a, b, n, ha, hb, h1, h2 => by
+    obtain ⟨s, rfl⟩ := ha; obtain ⟨t, rfl⟩ := hb
+    simp only [serKey, Except.ok.injEq] at h1 h2
+    rw [h1, h2]
+  | .char, a, b, n, ha, hb, h1, h2 => by
+    obtain ⟨c, rfl⟩ := ha; obtain ⟨d, rfl⟩ := hb
+    simp only [serKey, Except.ok.injEq] at h1 h2
+    rw [← h2] at h1
+    simp only [List.cons.injEq, and_true] at h1
+    rw [h1]
+  | .unitEnum names, a, b, n, ha, hb, h1, h2 => by
+    obtain ⟨v, rfl, _⟩ := ha; obtain ⟨w, rfl, _⟩ := hb
+    simp only [serKey, Except.ok.injEq] at h1 h2
+    rw [h1, h2]
+  | .newtype k, a, b, n, ha, hb, h1, h2 => by
+    obtain ⟨x, rfl, hx⟩ := ha; obtain ⟨y, rfl, hy⟩ := hb
+    simp only [serKey] at h1 h2
+    rw [serKey_inj k x y n hx hy h1 h2]
+  | .int w, a, b, n, ha, hb, h1, h2 => by
+    obtain ⟨i, hi1, hi2, rfl⟩ := ha; obtain ⟨j, hj1, hj2, rfl⟩ := hb
+    obtain ⟨n1, e1, d1⟩ := intKey_rt w i hi1 hi2
+    obtain ⟨n2, e2, d2⟩ := intKey_rt w j hj1 hj2
+    rw [h1] at e1; rw [h2] at e2
+    have : n1 = n2 := by rw [← Except.ok.inj e1, ← Except.ok.inj e2]
+    subst this
+    rw [d1] at d2
+    exact Except.ok.inj d2
+
+/-- a map datum whose keys are pairwise distinct data of one key type, none of them spelled like the
+    private number token, satisfies the side condition `KeysOk` of `HasTy` -/
+theorem keysOk_of_nodup (k : KTy) : ∀ (l : List (SData × SData)), (∀ e ∈ l, HasKey k e.1) →
+    (l.map (·.1)).Pairwise (· ≠ ·) → (∀ e ∈ l, serKey e.1 ≠ .ok numberToken) → KeysOk l
+  | [], _, _, _ => ⟨[], rfl, List.nodup_nil, by simp⟩
+  | e :: l, hk, hnd, hnt => by
+    obtain ⟨n, hn, _⟩ := key_rt k e.1 (hk e (by simp))
+    simp only [List.map_cons, List.pairwise_cons] at hnd
+    obtain ⟨ns, h1, h2, h3⟩ := keysOk_of_nodup k l (fun x hx => hk x (by simp [hx])) hnd.2
+      (fun x hx => hnt x (by simp [hx]))
+    refine ⟨n :: ns, by simp [hn, h1], ?_, ?_⟩
+    · refine List.nodup_cons.2 ⟨?_, h2⟩
+      intro hmem
+      -- some later key is spelled `n` too: it is the same datum
+      have : ∃ x ∈ l, serKey x.1 = .ok n := by
+        have hm : Except.ok n ∈ ns.map (Except.ok (ε := SerErr)) := List.mem_map.2 ⟨n, hmem, rfl⟩
+        rw [← h1] at hm
+        obtain ⟨x, hx, hxe⟩ := List.mem_map.1 hm
+        exact ⟨x, hx, hxe⟩
+      obtain ⟨x, hx, hxe⟩ := this
+      have heq := serKey_inj k e.1 x.1 n (hk e (by simp)) (hk x (by simp [hx])) hn hxe
+      exact hnd.1 x.1 (List.mem_map.2 ⟨x, hx, rfl⟩) heq
+    · intro hmem
+      rcases List.mem_cons.1 hmem with h | h
+      · exact hnt e (by simp) (by rw [hn, h])
+      · exact h3 h
+
+end JsonVerif
